@@ -17,7 +17,10 @@ LEVEL_TEXT = ("Theorems in Coq (Props/C17.v): for every content, recipient list 
               "HMAC(KDF(password)) matching the received authenticated safe; the PKCS#12 KDF model equals RFC 7292 B.2; BMPString encoding "
               "round-trips; RC2 decrypt(encrypt(b)) = b for all keys and blocks. The real packages are run on round trips, strangers, wrong "
               "keys, wrong passwords, altered content/attribute/signature and single-byte corruptions, decided by the predicate.")
-LEVEL_NOTE = ("Relative to idealised primitives (Section hypotheses, never axioms): content ciphers and key transport invert (D(E(x)) = x), "
+LEVEL_NOTE = ("C17_envelope_roundtrip_sm2 composes the envelope theorem with the SM2 model of the C02 family (SM2Model.Encrypt on the certificate's key [d]G, "
+              "SM2Model.Decrypt with d): the key-transport premise is discharged by C02_decrypt_encrypt with the SM2 facts proved (Prime/SM2FactsProof.v), so for "
+              "PKCS7EncryptSM2 / DecryptSM2 only the content cipher (DES-CBC / AES-GCM decryption inverts encryption, lengths) is left as a premise; the general theorems remain "
+              "relative to idealised primitives (Section hypotheses, never axioms): content ciphers and key transport invert (D(E(x)) = x), "
               "signature verification / hashes / HMAC / DER encoding of the structures are abstract functions; 'by no other key' is proved as: a "
               "non-listed certificate gets an error, a listed certificate whose key does not open the wrapped key gets that error (that a wrong "
               "SM2/RSA key fails to open is C02 / an RSA property, tested here, not proved). The container models (P7Model, "
@@ -42,7 +45,7 @@ TRUSTED_BASE = [
 ]
 ASSUMPTIONS = [
     "content cipher: CBC decrypt inverts CBC encrypt and preserves length; GCM open(seal(p)) = p",
-    "key transport: unwrap(sk_of c)(wrap c k r) = k for the key pair of certificate c",
+    "key transport: unwrap(sk_of c)(wrap c k r) = k for the key pair of certificate c (general theorems; for SM2 key transport this is proved: C17_envelope_roundtrip_sm2 uses C02_decrypt_encrypt with SM2Facts_proved, relative to the SM2 model of C02)",
     "recipient certificates have pairwise distinct (issuer, serial)",
     "DER encoding/decoding of the container structures by encoding/asn1 is the identity on the decoded structures",
     "hash, HMAC-SHA1, signature verification are functions (no collision / forgery statement is made: theorems conclude equalities of MACs / digests)",
